@@ -24,6 +24,9 @@ struct zstd_verif_ghost_s {
     unsigned long long chunk_src_bytes;   /* ZSTD_compress_frameChunk: input bytes put into blocks so far */
     unsigned long long chunk_blocks;      /* blocks emitted: 0, 1, 2 = several (saturating) */
     unsigned chunk_last_seen;             /* a block carrying the last-block flag has been emitted */
+    unsigned long long cs_loaded;         /* ZSTD_compressStream_generic: input bytes accepted into the staging buffer so far */
+    unsigned long long cs_compressed;     /* bytes handed to the block-level compressor (contract ghost effect) */
+    unsigned long long cs_produced;       /* bytes the block-level compressor produced into the staging output buffer or dst */
     size_t   cell_idx;                    /* ghost cell of a table-transforming loop: index chosen by the harness, */
     unsigned cell_old, cell_new;          /* its value before the loop and the value the specification gives it   */
 };
